@@ -610,6 +610,13 @@ fn shapes<B: Backend>(seed: u64, tier: Tier) -> Vec<BytesCase> {
                 for (shape, der) in crate::keypool::odd_private_keys(4096, i) {
                     push("PkeSecret", shape.clone(), der.clone());
                 }
+                for (shape, der) in crate::keypool::odd_public_keys(2048, i) {
+                    push("Public", shape.clone(), der.clone());
+                    push("Public", format!("{shape}-pem"), crate::props::c13::pem_encode("PUBLIC KEY", &der));
+                }
+                for (shape, der) in crate::keypool::odd_public_keys(4096, i) {
+                    push("PkePublic", shape.clone(), der.clone());
+                }
             }
             // moduli one bit / one byte beside the allowed sizes, and common other sizes
             for (bits, der) in crate::keypool::odd_sizes() {
